@@ -77,7 +77,7 @@ func (c16) Exhaustive(tier string) bool { return true }
 func (c16) Plan(tier string) []mon.RunSpec {
 	return []mon.RunSpec{{Flavour: "plain"}, {Flavour: "checkptr", Every: 4}}
 }
-func (c16) CaseCPUBudget(string) float64 { return 120 }
+func (c16) CaseCPUBudget(string) float64 { return 300 }
 
 func (c16) levels(c *mon.Ctx) {
 	type ctor struct {
